@@ -2,6 +2,7 @@ import WellenModel.Model.Proto
 import WellenModel.Model.Offset
 import WellenModel.Model.Spec
 import WellenModel.Model.VcdBody
+import WellenModel.Model.HierDump
 /-
 `wmdriver`: reads one request per line on stdin, answers `<model reply>\t<spec reply>` per line.
 Imports only the import-free `Model` modules (the same definitions the theorems are about).
@@ -308,6 +309,7 @@ def handleVcd (opts vars rmap body : String) : String × String :=
 
 def handle (line : String) : String × String :=
   match splitSp line with
+  | ["hier", ops] => Wellen.Hier.handle ops
   | ["vcd", opts, vars, rmap, body] => handleVcd opts vars rmap body
   | ["vcdmt", opts, vars, rmap, body] => handleVcdMt opts vars rmap body
   | ["entryvcd", vars, rmap, body] => handleEntryVcd vars rmap body
